@@ -14,6 +14,7 @@ import (
 	"math"
 	"math/rand"
 	"os"
+	"runtime/debug"
 	"sort"
 	"strconv"
 	"strings"
@@ -141,7 +142,9 @@ func (c *caseCtx) violation(fp, msg string, key, value []byte) {
 	if seen {
 		return
 	}
-	w := map[string]any{"case": c.id, "version": c.version, "scheme": c.scheme, "hostile": c.hostile}
+	w := map[string]any{"case": c.id, "version": c.version, "scheme": c.scheme, "hostile": c.hostile,
+		"reproduce": fmt.Sprintf("VERIF_SEED=%d VERIF_TIER=%s VERIF_CASE=%d VERIF_REPS=20 VERIF_DEBUG=1 C47_V1_REORG=%v C47_V1_CRASH_TAIL=%v <harness binary> (same generated history and plan; peer timing varies per repetition; case indices >= 1000000 are the v1reorg scenario class)",
+			c.r.Seed, c.r.Tier, c.id, b2i(v1Reorg), b2i(v1CrashTail))}
 	if key != nil {
 		w["key"] = vrt.Hex(key)
 		v := value
@@ -151,6 +154,13 @@ func (c *caseCtx) violation(fp, msg string, key, value []byte) {
 		w["value"] = vrt.Hex(v)
 	}
 	c.r.Violation(fp, fmt.Sprintf("case %d (snap/%d %s): %s", c.id, c.version, c.scheme, msg), w)
+}
+
+func b2i(b bool) int {
+	if b {
+		return 1
+	}
+	return 0
 }
 
 func (c *caseCtx) cancelled() bool {
@@ -287,20 +297,28 @@ func logUniform(rng *rand.Rand, lo, hi int) int {
 }
 
 func runCase(r *vrt.Run, i int) {
-	if debug {
+	if debugOn {
 		t0 := time.Now()
 		defer func() { fmt.Printf("  case %d took %.1fs\n", i, time.Since(t0).Seconds()) }()
 	}
 	rng := r.Rand("case", i)
 	c := &caseCtx{r: r, id: i, kinds: map[string]int{}, fams: map[string]bool{}, verdicts: map[string]int{}, counts: map[string]int{},
 		viol: map[string]bool{}, enabled: map[string]bool{}, mined: map[string]bool{}}
-	c.version = 1 + i%2
-	c.path = (i/2)%2 == 1
+	// Scenario class "v1reorg" (indices >= reorgBase): snap/1 whose pivot moves onto a fork.
+	// It is a class of its own because it can hit a known finding (see known_findings.json);
+	// the regular classes move snap/1 along one chain only and are unaffected by it.
+	reorgClass := i >= reorgBase
+	sel := i
+	if reorgClass {
+		sel = 2 * (i - reorgBase) // snap/1 only; scheme and peer mode alternate
+	}
+	c.version = 1 + sel%2
+	c.path = (sel/2)%2 == 1
 	c.scheme = rawdb.HashScheme
 	if c.path {
 		c.scheme = rawdb.PathScheme
 	}
-	mode := (i / 4) % 3 // 0: honest (partial) peers only -> bounded progress; 1, 2: hostile peers
+	mode := (sel / 4) % 3 // 0: honest (partial) peers only -> bounded progress; 1, 2: hostile peers
 	c.hostile = mode != 0
 
 	// ---- sizes
@@ -330,10 +348,13 @@ func runCase(r *vrt.Run, i int) {
 	moves := 0
 	maxGap := 5
 	if c.version == 2 {
-		maxGap = r.N(12, 40)
+		maxGap = r.N(12, 28)
 		moves = []int{0, 1, 1, 2, 3, 4}[rng.Intn(6)]
 	} else {
 		moves = []int{0, 0, 1, 1, 2, 3}[rng.Intn(6)]
+		if reorgClass {
+			moves = 1 + rng.Intn(3)
+		}
 	}
 	if r.Race() && moves > 2 {
 		moves = 2
@@ -345,12 +366,12 @@ func runCase(r *vrt.Run, i int) {
 	steps := idx[len(idx)-1] + 1 + rng.Intn(3)
 	reorgAt := -1 // move number from which targets live on the fork
 	forkLen := 0
-	// snap/1 is only moved along one chain by default: moving it onto a fork on which a
-	// contract with already completed storage does not exist makes forwardAccountTask panic
-	// ("storage completion flags should be emptied"), reported separately; C47_V1_REORG=1
-	// re-enables the scenario.
+	// snap/1 is moved onto a fork only in the v1reorg class (or everywhere with
+	// C47_V1_REORG=1): on a fork on which a contract with already completed storage does not
+	// exist forwardAccountTask panics ("storage completion flags should be emptied"), a
+	// known finding.
 	forkAt := 0
-	if moves > 0 && rng.Intn(3) == 0 && (c.version == 2 || v1Reorg) {
+	if doReorg := rng.Intn(3) == 0; moves > 0 && (reorgClass || doReorg && (c.version == 2 || v1Reorg)) {
 		reorgAt = 1 + rng.Intn(moves)
 		forkLen = 1 + rng.Intn(maxGap) + (moves-reorgAt)*maxGap
 		// fork below the pivot that is abandoned, so that it really is reorged out
@@ -363,11 +384,16 @@ func runCase(r *vrt.Run, i int) {
 		forkAt = rng.Intn(idx[reorgAt-1])
 	}
 	// keep the ground truth of one case (one account trie per state) within ~150 MB
-	if total := steps + forkLen + 4; accounts*total > 120000 {
-		accounts = 120000 / total
+	if total := steps + forkLen + 4; accounts*total > 80000 {
+		accounts = 80000 / total
+	}
+	// v1reorg class: many contracts that exist on one branch only, and slow account tasks
+	reorgExtraOps, reorgBias := 0, 0.0
+	if reorgClass {
+		reorgExtraOps, reorgBias = 12, 0.5
 	}
 	c.ch = newChain(r.Rand("chain", i), chainOpts{accounts: accounts, bigSlots: bigSlots, steps: steps, forkLen: forkLen, forkAt: forkAt,
-		decoys: 2 + rng.Intn(2), maxOps: 2 + accounts/40 + rng.Intn(10), minedSlots: mined})
+		decoys: 2 + rng.Intn(2), maxOps: 2 + accounts/40 + rng.Intn(10) + reorgExtraOps, minedSlots: mined, newContractBias: reorgBias})
 	if len(c.ch.states) > maxStates {
 		r.Inconclusive("case %d: too many states for the admissibility mask", i)
 		return
@@ -438,6 +464,9 @@ func runCase(r *vrt.Run, i int) {
 		default:
 			p.partial = 0.9
 		}
+		if reorgClass {
+			p.partial = 0.9
+		}
 		if c.hostile && !p.anchor {
 			p.hostile = []float64{0.05, 0.2, 0.5, 0.9}[rng.Intn(4)]
 		}
@@ -476,12 +505,18 @@ func runCase(r *vrt.Run, i int) {
 				cy.crash = rng.Intn(2) == 0
 			} else {
 				cy.cancelR = 1 + rng.Intn(respScale)
+				if reorgClass {
+					cy.cancelR += rng.Intn(3 * respScale)
+				}
 			}
 			plan = append(plan, cy)
 		}
 		if last {
 			plan = append(plan, cycle{target: t, fresh: rng.Intn(2) == 0})
 		}
+	}
+	if reorgClass {
+		r.Count("v1reorg_cases", 1)
 	}
 	r.Case("case %d snap/%d %s hostile=%v accounts=%d big=%v states=%d targets=%d cycles=%d peers=%d ttl=%v", i, c.version, c.scheme, c.hostile,
 		accounts, bigSlots, len(c.ch.states), len(targets), len(plan), npeers, ttl)
@@ -569,7 +604,7 @@ func runCase(r *vrt.Run, i int) {
 		distinct[target] = true
 		prev = target
 
-		if debug {
+		if debugOn {
 			fmt.Printf("  case %d cycle %d: target idx=%d num=%d branch=%s accts=%d fresh=%v cancelR=%d cancelW=%d\n", i, ci, target.idx, target.num, target.branch, len(target.accts), cy.fresh, cy.cancelR, cy.cancelW)
 		}
 		cancel := c.newCancel()
@@ -604,7 +639,7 @@ func runCase(r *vrt.Run, i int) {
 			rootBlob, _ := snapDB.Get([]byte("A"))
 			if bytes.Equal(rootBlob, target.acctTrie.Nodes[""]) {
 				c.count("v1_path_crash_after_final_heal_commit", 1)
-				if debug {
+				if debugOn {
 					fmt.Printf("  case %d: crash point after final heal commit (root present, journal stale)\n", i)
 				}
 				if !v1CrashTail {
@@ -624,8 +659,17 @@ func runCase(r *vrt.Run, i int) {
 			}
 		}
 		if perr != nil {
-			c.violation("panic:sync:"+vrt.PanicSite(stack), fmt.Sprintf("Sync panicked: %v\n%s", perr, stack), nil, nil)
-			return
+			// The exact fingerprint of the known finding is emitted only for its root cause:
+			// snap/1 of the v1reorg class, pivot on the fork, and the specific panic message.
+			fp := "panic:sync-other:" + vrt.PanicSite(stack)
+			if reorgClass && c.version == 1 && target.branch == "fork" &&
+				strings.Contains(fmt.Sprint(perr), "storage completion flags should be emptied") &&
+				vrt.PanicSite(stack) == "eth/protocols/snap.(*syncer).forwardAccountTask" {
+				fp = "panic:sync:eth/protocols/snap.(*syncer).forwardAccountTask"
+				r.Count("v1reorg_known_panic_fired", 1)
+			}
+			c.violation(fp, fmt.Sprintf("Sync panicked: %v\n%s", perr, stack), nil, nil)
+			return // the syncer instance is dead: stop the case (no cascade)
 		}
 		if c.timedOut.Load() {
 			r.Inconclusive("case %d: watchdog (%v) fired in cycle %d (snap/%d %s)", i, watchdog, ci, c.version, c.scheme)
@@ -774,8 +818,14 @@ func runCase(r *vrt.Run, i int) {
 	if tiny {
 		sizeB = "tiny"
 	}
+	if reorgClass {
+		r.Count("v1reorg_cases_completed", 1)
+	}
 	sig := fmt.Sprintf("v%d/%s/hostile=%v/fams=%s/moves=%s/restarts=%s/crash=%v/reorg=%v/big=%d/size=%s/ttl=%v", c.version, c.scheme, c.hostile,
 		strings.Join(fams, "+"), bucket(len(distinct)-1), bucket(restarts), crashes > 0, reorgs > 0, len(bigSlots), sizeB, c.shortTTL)
+	if reorgClass {
+		sig += "/class=v1reorg"
+	}
 	r.Eval(sig)
 	if r.WantSample() {
 		r.Sample(map[string]any{"case": i, "signature": sig, "accounts": len(done.accts), "slots": done.nSlots, "trie_nodes": done.nNodes,
@@ -784,9 +834,13 @@ func runCase(r *vrt.Run, i int) {
 	}
 }
 
-var debug = os.Getenv("VERIF_DEBUG") != ""
-var v1Reorg = os.Getenv("C47_V1_REORG") != ""
-var v1CrashTail = os.Getenv("C47_V1_CRASH_TAIL") != ""
+var debugOn = os.Getenv("VERIF_DEBUG") != ""
+var v1Reorg = os.Getenv("C47_V1_REORG") == "1"
+
+// reorgBase is the first case index of the v1reorg scenario class.
+const reorgBase = 1000000
+
+var v1CrashTail = os.Getenv("C47_V1_CRASH_TAIL") == "1"
 
 var (
 	maxRatioMu sync.Mutex
@@ -811,10 +865,11 @@ func run(r *vrt.Run) {
 		"shared code, 1..60 states with access lists, optional fork and decoy states) x random pivot plan (moves, cancels after k responses " +
 		"or k writes, fresh syncer instances, reorg) x 1-8 peers with per-request random behaviour. non-trivial signature = (version, scheme, " +
 		"hostile?, misbehaviour families seen, pivot moves bucket, same-pivot restarts bucket, reorg?, #large contracts, size class, short TTL?)")
-	n := r.N(96, 2400)
+	n := r.N(96, 2000)
 	if r.Race() {
 		n = r.N(32, 320)
 	}
+	debug.SetGCPercent(50)                           // many cases hold their ground truth at the same time: trade CPU for memory
 	if only := os.Getenv("VERIF_CASE"); only != "" { // replay of a single case (same generated inputs)
 		i, _ := strconv.Atoi(only)
 		reps, _ := strconv.Atoi(os.Getenv("VERIF_REPS"))
@@ -823,7 +878,16 @@ func run(r *vrt.Run) {
 		}
 		return
 	}
-	vrt.Par(n, 0, func(i int) { runCase(r, i) })
+	nReorg := r.N(6, 60)
+	if r.Race() {
+		nReorg = r.N(2, 8)
+	}
+	vrt.Par(n+nReorg, 0, func(i int) {
+		if i >= n {
+			i = reorgBase + i - n
+		}
+		runCase(r, i)
+	})
 
 	r.Extra("bounded_progress_max_ratio_permille", maxRatio)
 	r.Logf("bounded progress: max responses/bound = %d permille", maxRatio)
@@ -832,7 +896,7 @@ func run(r *vrt.Run) {
 	r.Assume("C12 clause 'a delivered node whose hash does not match is rejected and never written' is decided here: corrupted / substituted / reordered trie-node responses go through the real snap.Syncer.OnTrieNodes and every trie-node write is checked by the write monitor (counters heal_*_delivered, heal_responses_rejected_by_OnTrieNodes, monitor_puts_trienode_*)")
 	if !r.Race() {
 		for _, k := range []string{"completed_v1_hash", "completed_v1_path", "completed_v2_hash", "completed_v2_path"} {
-			r.Require(k, int64(r.N(12, 300)))
+			r.Require(k, int64(r.N(12, 250)))
 		}
 		r.Require("pivot_moves", 20)
 		r.Require("v2_completed_after_pivot_move", 8)
